@@ -256,11 +256,13 @@ structure SInv (s : St) : Prop where
   saved : ∀ p ∈ s.saved, p.2.1.pending = [] ∧ p.2.1.step = none
 
 /-- The protocol the runner follows: a thread (re)opens a result only when it has no step open in the
-    stream, and logs only while a step is current (the runner sets a step before calling user code). -/
+    stream, and logs only while a step is current (the runner sets a step before calling user code).
+    Entering a `prepare_attachment` block (`attachBegin`) needs nothing; leaving it (`attachEnd`) fires the
+    attachment event and therefore needs a current step, exactly like the atomic `attach`. -/
 def okOp (s : St) (t : Nat) : Op → Bool
   | .startSessionSetup | .startSessionTeardown | .startSuiteSetup _ | .startSuiteTeardown _
   | .startTest _ _ | .threadRun => !openFired s t
-  | .log _ _ | .check _ _ _ | .url _ _ | .attach _ _ _ =>
+  | .log _ _ | .check _ _ _ | .url _ _ | .attach _ _ _ | .attachEnd =>
     match getCursor s t with | some c => c.step.isSome | none => true
   | _ => true
 
@@ -532,6 +534,24 @@ theorem sinv_step {s s' : St} {t : Nat} {op : Op} (hinv : SInv s) (hok : okOp s 
       cases hc : getCursor s t with
       | none => trivial
       | some c => rw [hc] at hok; exact hok
+  | attachBegin filename d asImage =>
+    simp only [step] at h; injection h with h; subst h
+    exact ⟨fun a c hc => hinv.pend a c hc, fun a => hinv.bal a, fun p hp => hinv.saved p hp⟩
+  | attachEnd =>
+    simp only [step] at h
+    cases hf : s.prepared.find? (fun p => p.tid == t) with
+    | none => rw [hf] at h; cases h
+    | some p =>
+      rw [hf] at h; simp only at h
+      have hinv' : SInv { s with prepared := s.prepared.eraseP (fun p => p.tid == t) } :=
+        ⟨fun a c hc => hinv.pend a c hc, fun a => hinv.bal a, fun p hp => hinv.saved p hp⟩
+      refine sinv_stepped hinv' false _ ?_ ?_ h
+      · intro l st n a; simp only [kindFor]
+      · simp only [okOp] at hok
+        show match getCursor s t with | some c => c.step.isSome = true | none => True
+        cases hc : getCursor s t with
+        | none => trivial
+        | some c => rw [hc] at hok; exact hok
   | threadCreate newTid =>
     simp only [step, withCursor] at h
     cases hc : getCursor s t with
